@@ -101,7 +101,9 @@ theorem invD_step {s s' : State} (h : Inv s) (hd : InvD s) (ev : Event) (hs : st
       · simp at hs
     | age t =>
       simp only [step] at hs; split at hs
-      · simp only [Option.some.injEq] at hs; subst hs; simp only at hp ⊢; left; grind
+      · split at hs
+        · simp only [Option.some.injEq] at hs; subst hs; simp only at hp ⊢; left; grind
+        · simp at hs
       · simp at hs
     | tick d =>
       simp only [step] at hs; split at hs
